@@ -92,6 +92,7 @@ def cases(proj):
     yield ("variable child: [[second:other(variable)]]", "[[second:other(variable)]]", None, U([v for v in second.variables if v.name == "other"][0]))
     yield ("the documented item kind `constructor`: [[circle(type):circle(constructor)]]", "[[circle(type):circle(constructor)]]", second, U(circ_i))
     yield ("a kind no project collection has, nothing found: plain text, no abort", "[[r(variable)]]", None, None)
+    yield ("a kind of child the parent cannot have, found through the context: no abort, the parent's page", "[[second:circle(bound)]]", second, U(second))
     yield ("dummy argument through its procedure: [[make_circle:r]]", "[[make_circle:r]]", None, U([a for a in second.functions[0].args if a.name == "r"][0]))
     yield ("absent target stays plain text", "[[nowhere_to_be_found]]", second, None)
     yield ("code span stays verbatim", "`[[run]]`", second, None)
@@ -113,4 +114,4 @@ def search():
 
 
 def count_cases():
-    return 17
+    return 18
